@@ -190,7 +190,7 @@ static void open_failures (void)
 		{	SF_VIRTUAL_IO nv ; int fd = -1 ;
 			memset (&si, 0, sizeof (si)) ; memset (&m, 0, sizeof (m)) ; memset (&nv, 0, sizeof (nv)) ;
 			snprintf (path, sizeof (path), "%s/c09_open_%d_%d", sd ? sd : ".", (int) getpid (), k) ;
-			f0 = count_fds () ; a0 = __sanitizer_get_current_allocated_bytes () ;
+			f0 = count_fds () ; a0 = vh_heap_bytes () ;
 			switch (k)
 			{	case 0 : s = sf_open ("/nonexistent/dir/file.wav", SFM_READ, &si) ; break ;
 				case 1 : s = sf_open (path, 0x999, &si) ; break ;
@@ -203,7 +203,7 @@ static void open_failures (void)
 				case 8 : si.format = SF_FORMAT_WAV | SF_FORMAT_PCM_16 ; si.channels = 0 ; si.samplerate = 8000 ; s = sf_open (path, SFM_WRITE, &si) ; unlink (path) ; break ;
 				default : s = sf_open_fd (fd, SFM_READ, &si, 0) ; break ;
 				}
-			a1 = __sanitizer_get_current_allocated_bytes () ; f1 = count_fds () ;
+			a1 = vh_heap_bytes () ; f1 = count_fds () ;
 			if (pass == 0) { if (s) sf_close (s) ; continue ; }
 			vh_stat ("failed_opens_checked", 1) ;
 			if (s != NULL) { vh_viol (vh_key ("C09|open-should-fail|%s", what [k]), "sf_open* returned a handle") ; sf_close (s) ; continue ; }
